@@ -14,7 +14,8 @@ def generate(ctx):
     rng = random.Random(ctx['seed'] * 2147483647 + 2)
     quick = ctx['tier'] == 'quick'
     cases = G.stream_valid(rng, 350 if quick else 12000, all_entries=False) + G.stream_valid(rng, 40 if quick else 800, all_entries=True)
-    for d in (1, 2, 999, 1000):
+    G.init(ctx)
+    for d in (1, 2, G.NESTING_LIMIT - 1, G.NESTING_LIMIT):
         for kind in '[{':
             t = G.deep_text(kind, d)
             v = None
